@@ -108,3 +108,15 @@ def run(ctx):
         ctx.case(l, ["big"])
         if not a.startswith("ok 1"):
             ctx.violation("big round trip failed", l, "ok 1", a)
+    # simple_compress on inputs longer than one default chunk (1 000 000 numbers): a few numbers more than a multiple of
+    # the chunk size (a trailing chunk of r <= delta order numbers holds delta moments only), exact multiples, one less
+    simple = ["bigsimple i32 4 1 1 smooth 1000001 3", "bigsimple i64 2 3 0 smooth 1000003 5", "bigsimple u16 0 0 1 uniform 1000000 7"]
+    if not ctx.quick:
+        simple += ["bigsimple i64 6 7 1 smooth 2000005 9", "bigsimple f32 4 2 1 sparse 999999 11", "bigsimple bool 8 1 1 sparse 2000001 13",
+                   "bigsimple u32 4 5 1 uniform 3000002 15", "bigsimple micros 3 2 0 smooth 1000008 17"]
+    for l, a in zip(simple, C.harness(simple, timeout=1800, mem_kb=24 * 1024 * 1024)):
+        ctx.case(l, ["big", "multi-chunk"])
+        kv = S.parse_kv(a)
+        if not a.startswith("ok ") or kv.get("rt") != "1":
+            ctx.violation("simple_compress -> auto_decompress does not reproduce an input longer than one chunk (decoded %s of %s numbers)"
+                          % (kv.get("len"), kv.get("n")), l, "rt=1", a[:200])
